@@ -93,6 +93,14 @@ CHECKS = {
         "Trusted: CPython. Termination is checked up to a 20 s watchdog. One open known finding (huge repetition counts unrolled by the optimizer).",
         "5/C11",
     ),
+    "C12": (
+        "exploration", "enum",
+        "complete enumeration of the code space U+0000..U+10FFFF for every expression of a family of character terminals in all four modes; integer-comparison oracle",
+        "For ranges, single-character literals, ASCII_*/NEWLINE/ANY and the character classes the optimizer merges them into, every one of the 1,114,112 code points is parsed in the interpreter, the optimised interpreter and both generated modules and compared with membership computed from the definition; "
+        "Unicode property rules must agree across the four modes; every \\xHH and \\u{H..} escape value must denote exactly its code point. The input domain is finite and fully enumerated (exhaustive: true); the expression family is a fixed list.",
+        "Trusted: integer-comparison oracle; `regex` for the Unicode tables. CI literals judged on ASCII input only; property rules cross-mode only (both as the statement says).",
+        "5/C12",
+    ),
     "C13": (
         "exploration", "engine",
         "stateless exhaustive enumeration of rejected executions (C01 families, alphabet + newline + non-ASCII, every start position, 4 modes); invariants on the exception",
@@ -116,6 +124,14 @@ CHECKS = {
         "A regex anchored or searched from the wrong place, a lookbehind into text before start_pos, or a position computed from 0 shows as a difference.",
         "Trusted: CPython. Not covered: larger grammars, longer texts.",
         "5/C16",
+    ),
+    "C18": (
+        "model_checking", "enum",
+        "exhaustive enumeration of operator tables x well-formed token streams against (1) a transcription of pest's binding-power algorithm and (2) brute force over all trees satisfying the statement's constraints",
+        "All 688 tables (0-2 infix operators with both associativities, optional prefix and postfix, precedences 1-3) x all well-formed streams up to N tokens are run through a PrattParser subclass whose hooks build tuples; the tree must equal the reference algorithm's and consume the stream. "
+        "Where the statement alone determines the tree (distinct precedences, no weak prefix after a stronger infix) a brute-force search over all trees confirms the reference (self-check) - so the oracle does not rest on one parsing algorithm.",
+        "Trusted: the 40-line transcription of pest::pratt_parser and the constraint checker, cross-checked against each other on every decided case. Streams longer than N tokens are not covered.",
+        "5/C18",
     ),
 }
 
